@@ -12,7 +12,7 @@ int valid_write (string path, mixed who, string fn) { return 1; }
 // safe_apply made by sprintf("%O", ob): the named object scripts what happens inside
 string object_name (object ob) { return ob->vname (); }
 
-// safe_apply made by the compiler's error logging; DECLARED WITHOUT PARAMETERS although the driver passes two
+// safe_apply made by the compiler error logging: prints the message so that a compile error in a generated program is visible
 void log_error (string f, string m) { VL ("compile " + m); }
 
 string error_handler (mapping m, int caught) {
